@@ -25,12 +25,14 @@ Proof. unfold check_C06, C06_holds. rewrite andb_true_iff, forallb_forall. intro
   - apply (list_eqb_sound cfg_eqb cfg_eqb_eq); auto.
   - intros r Hr. apply run_holdsb_sound; auto. Qed.
 
-Theorem model_C06_holds i : wf_schemab (fst i) = true -> wf_schemab (snd i) = true -> C06_holds i (model_C06 i).
-Proof. destruct i as [A B]. simpl. intros HA HB. unfold C06_holds, model_C06. simpl. split; [reflexivity|].
+Theorem model_C06_holds i : wf_schemab (fst i) = true -> wf_schemab (snd i) = true ->
+  defaults_ok (fst i) = true -> defaults_ok (snd i) = true -> C06_holds i (model_C06 i).
+Proof. destruct i as [A B]. simpl. intros HA HB HdA HdB. unfold C06_holds, model_C06. simpl. split; [reflexivity|].
   intros r Hr.
   assert (Hg: exists g, r = model_run A B g) by (repeat (destruct Hr as [<-|Hr]; [eexists; reflexivity|]); inversion Hr).
   destruct Hg as [g ->]. unfold run_holds, model_run, model_apply. simpl. split; [apply diff_quiet; auto|].
   split; [|left]; eexists; rewrite diff_converge; auto. Qed.
 
-Lemma inclass_C06_wf i : inclass_C06 i = true -> wf_schemab (fst i) = true /\ wf_schemab (snd i) = true.
+Lemma inclass_C06_wf i : inclass_C06 i = true ->
+  wf_schemab (fst i) = true /\ wf_schemab (snd i) = true /\ defaults_ok (fst i) = true /\ defaults_ok (snd i) = true.
 Proof. unfold inclass_C06. rewrite !andb_true_iff. tauto. Qed.
